@@ -15,7 +15,8 @@ ASSUMPTIONS = [
     "client is reconnectable; safety (one at a time, at most one entry per request, order, tags, refusal) always",
     "the originating request is identified by a caller supplied 'reply' tag found in the entry's request or in the first element of its redirect history",
 ]
-BEHAVIOURS = ["now", "delay", "fragments", "redirect-path", "redirect-host", "close-after", "redirect-http"]
+BEHAVIOURS = ["now", "delay", "fragments", "redirect-path", "redirect-host", "close-after", "redirect-nolocation", "redirect-http"]
+STYLES = ["qargs+body", "dict", "query-in-path", "bare"]       # how the caller queues a request
 CODES = [301, 302, 303, 307]
 
 
@@ -24,9 +25,9 @@ def BOUND(tier):
 
 
 def RULE(tier):
-    return ("real http.Client (plain, and TLS flavour with a fake TLS context) with 1-%d queued GET requests (distinct path and reply "
-            "tag), reconnectable or not, against a scripted server whose behaviour per request is enumerated completely: answer at once / "
-            "after 2 idle rounds / in two fragments / redirect (301|302|303|307) to another path / to a second listener / answer then "
+    return ("real http.Client (plain, and TLS flavour with a fake TLS context) with 1-%d queued requests (distinct path and reply "
+            "tag; each queued in one of 4 ways: request() with qargs and body, a raw request dict, the query inside the path, no query), reconnectable or not, against a scripted server whose behaviour per request is enumerated completely: answer at once / "
+            "after 2 idle rounds / in two fragments / redirect (301|302|303|307) to another path / to a second listener / redirect without a Location / answer then "
             "close / (TLS) redirect to an http:// location. Oracle: no request bytes reach the server while an earlier response is "
             "unfinished; client.responses holds at most one entry per request in queue order with its tag and redirect history; "
             "https->http is refused without any connection to the plain listener; exactly one entry per request when the connection "
@@ -135,13 +136,16 @@ class Peer:
             pending.append((0, ok, True))
         else:
             code = w.code(idx)
-            if beh == "redirect-path":
+            if beh == "redirect-nolocation":      # a redirect that cannot be followed
+                pending.append((0, ("HTTP/1.1 %d Redirect\r\nContent-Length: 0\r\n\r\n" % code).encode(), False))
+            elif beh == "redirect-path":
                 loc = "/moved%d" % idx
             elif beh == "redirect-host":
                 loc = "http%s://127.0.0.1:6102/moved%d" % ("s" if w.tls else "", idx)
             else:
                 loc = "http://127.0.0.1:6102/moved%d" % idx
-            pending.append((0, ("HTTP/1.1 %d Redirect\r\nLocation: %s\r\nContent-Length: 0\r\n\r\n" % (code, loc)).encode(), False))
+            if beh != "redirect-nolocation":
+                pending.append((0, ("HTTP/1.1 %d Redirect\r\nLocation: %s\r\nContent-Length: 0\r\n\r\n" % (code, loc)).encode(), False))
         # write what can be written now
         cd, out, close_after = pending[0]
         if cd == 0:
@@ -190,11 +194,21 @@ def harness(job, ch):
         client.reopen()
         # request i: even = POST with a body through Client.request(); odd = a raw request dict without body
         # (the documented alternative), both with their own query argument
+        styles = {}
         for i in range(nreq):
-            if i % 2 == 0:
+            default = "qargs+body" if i % 2 == 0 else "dict"
+            order = [default] + [x for x in STYLES if x != default]
+            st = styles[i] = order[ch.choose(len(order), "style%d" % i)]
+            if st == "qargs+body":
                 client.request(method="POST", path="/r%d" % i, qargs={"t": str(i)}, body=b"B%d" % i, reply="tag%d" % i)
-            else:
+            elif st == "dict":
                 client.requests.append(dict(method="POST", path="/r%d" % i, qargs={"t": str(i)}, reply="tag%d" % i))
+            elif st == "query-in-path":     # the query travels inside the path, no qargs given
+                client.request(method="GET", path="/r%d?t=%d" % (i, i), reply="tag%d" % i)
+            else:                           # no query at all
+                client.request(method="GET", path="/r%d" % i, reply="tag%d" % i)
+        wanted = {"qargs+body": ("POST", True, True), "dict": ("POST", True, False), "query-in-path": ("GET", True, False),
+                  "bare": ("GET", False, False)}
         rounds = 0
         for rounds in range(40):
             tymist.tick()
@@ -241,6 +255,14 @@ def harness(job, ch):
                     viol.append(("redirect-history-missing", "request %d was redirected (%s %s) but its entry has redirects=%r" % (i, b, codes.get(i), [x.get("status") for x in reds])))
                 elif r.get("status") != 200 or bytes(r.get("body") or b"") not in (("echo:/moved%d" % i).encode(), b""):
                     viol.append(("redirect-not-followed", "request %d redirect entry status %r body %r" % (i, r.get("status"), bytes(r.get("body") or b"")[:30])))
+        # a plainly answered request yields a plain entry whatever happened to earlier requests on this client
+        for i, r in enumerate(client.responses):
+            if behs.get(i) in ("now", "delay", "fragments", "close-after") and i < len(tags) and tags[i] == want[i]:
+                # (the body is not compared: entries alias the parser's buffer, which the next response empties - outside C19)
+                if r.get("status") != 200 or r.get("errored") or (r.get("redirects") or []):
+                    viol.append(("plain-response-entry:%s" % ("errored" if r.get("errored") else "redirects" if r.get("redirects") else "status"),
+                                 "request %d was answered 200 directly but its entry is status %r errored %r redirects %r body %r (behaviours %s)" % (
+                                     i, r.get("status"), r.get("errored"), [x.get("status") for x in (r.get("redirects") or [])], bytes(r.get("body") or b"")[:20], behs)))
         # https -> http must be refused: error reported, plain listener never contacted for it
         for i, b in behs.items():
             if b == "redirect-http":
@@ -254,10 +276,12 @@ def harness(job, ch):
             path, _, query = target.partition("?")
             if path.startswith("/r") and path[2:].isdigit():
                 i = int(path[2:])
-                wantq, wantb = "t=%d" % i, (b"B%d" % i if i % 2 == 0 else b"")
-                if query != wantq or body != wantb or meth != "POST":
+                wm, hasq, hasb = wanted[styles[i]]
+                wantq, wantb = ("t=%d" % i if hasq else ""), (b"B%d" % i if hasb else b"")
+                if query != wantq or body != wantb or meth != wm:
                     viol.append(("request-on-wire:%s" % ("body" if body != wantb else "query" if query != wantq else "method"),
-                                 "request %d went out as %s %s body %r, expected POST %s?%s body %r" % (i, meth, target, body, path, wantq, wantb)))
+                                 "request %d (queued as %s) went out as %s %s body %r, expected %s %s?%s body %r; styles %s" % (
+                                     i, styles[i], meth, target, body, wm, path, wantq, wantb, styles)))
             elif path.startswith("/moved"):
                 if query:
                     viol.append(("redirected-request-query", "redirect to %s was requested as %s (query not in the Location)" % (path, target)))
@@ -269,7 +293,7 @@ def harness(job, ch):
         if usable and not escaped and len(client.responses) != nreq and "redirect-http" not in behs.values():
             viol.append(("missing-response:%s" % ("reconnectable" if any(b == "close-after" for b in behs.values()) else "usable"),
                          "%d requests queued, %d responses after %d rounds (behaviours %s, tags %s)" % (nreq, len(client.responses), rounds, behs, tags)))
-        obs = (tuple(sorted(behs.items())), tuple(sorted(codes.items())), tuple(tags), tuple(w.seen), escaped)
+        obs = (tuple(sorted(behs.items())), tuple(sorted(codes.items())), tuple(sorted(styles.items())), tuple(tags), tuple(w.seen), escaped)
     return Outcome(obs=obs, violations=viol, states=None,
                    sample=dict(tls=tls, requests=nreq, reconnectable=reconnectable, behaviours=behs, codes=codes, tags=tags, server_saw=w.seen))
 
